@@ -104,6 +104,10 @@ pub enum G {
     MwCtx(Box<G>),
     Validate(Pred, u64, u64, Box<G>),
     Collect(Coll, Box<It>),
+    /// harness-only: `a.ignore_with_ctx(it).collect::<Vec<_>>()` / `a.then_with_ctx(it).collect::<Vec<_>>()` — the `IterParser`
+    /// impls of the context providers (the model-known equivalents are `iwctx a (collect vec it)` / `twctx a (collect vec it)`)
+    CollectIw(Box<G>, Box<It>),
+    CollectTw(Box<G>, Box<It>),
     CollectX(usize, Box<It>),
     Foldl(FoldFn, Box<G>, Box<It>),
     Foldr(FoldFn, Box<It>, Box<G>),
@@ -355,6 +359,8 @@ impl<'a> Rd<'a> {
             "validate" => G::Validate(self.pred()?, self.nat()?, self.nat()?, self.bg()?),
             "collect" => G::Collect(self.coll()?, self.bit()?),
             "collectx" => G::CollectX(self.nat()? as usize, self.bit()?),
+            "collectiw" => G::CollectIw(self.bg()?, self.bit()?),
+            "collecttw" => G::CollectTw(self.bg()?, self.bit()?),
             "foldl" => G::Foldl(self.foldfn()?, self.bg()?, self.bit()?),
             "foldr" => G::Foldr(self.foldfn()?, self.bit()?, self.bg()?),
             "foldlw" => G::FoldlW(self.bg()?, self.bit()?),
